@@ -214,8 +214,13 @@ func s1Pair(c *mon.Case) {
 	U, I := A.Union(B), A.Intersection(B)
 	comp := A.Complement()
 	margin := 0.0
-	if r.Intn(2) == 0 {
+	switch r.Intn(6) {
+	case 0, 1, 2:
 		margin = gen.LogUniform(r, 1e-17, 7)
+	case 3: // negative: the interval shrinks on both sides (possibly to nothing)
+		margin = -gen.LogUniform(r, 1e-17, 7)
+	case 4: // negative, between nothing and the whole length (the interval is used up at half its length)
+		margin = -A.Length() * 1.2 * r.Float64()
 	}
 	E := A.Expanded(margin)
 	pa, pb := s1Endpoint(r), s1Endpoint(r)
@@ -281,8 +286,11 @@ func s1Pair(c *mon.Case) {
 		if !a && !s1In(comp, p) {
 			c.Violation("s1/Complement/does-not-cover/wrong-answer", "point in neither A nor Complement(A): "+hx(p), desc())
 		}
-		if a && !s1In(E, p) {
+		if margin >= 0 && a && !s1In(E, p) {
 			c.Violation("s1/Expanded/loses-point/wrong-answer", "Expanded(margin>=0) lost "+hx(p), desc())
+		}
+		if margin < 0 && !a && s1In(E, p) {
+			c.Violation("s1/Expanded/negative-margin-adds-point/wrong-answer", "Expanded(margin<0) contains "+hx(p)+", which is not in the interval", desc())
 		}
 		if a && !s1In(AP, p) {
 			c.Violation("s1/AddPoint/loses-point/wrong-answer", "AddPoint lost "+hx(p), desc())
@@ -382,8 +390,13 @@ func r1Pair(c *mon.Case) {
 	}
 	U, I := A.Union(B), A.Intersection(B)
 	margin := 0.0
-	if r.Intn(2) == 0 {
+	switch r.Intn(6) {
+	case 0, 1, 2:
 		margin = gen.LogUniform(r, 1e-17, 3)
+	case 3:
+		margin = -gen.LogUniform(r, 1e-17, 3)
+	case 4:
+		margin = -A.Length() * 1.2 * r.Float64()
 	}
 	E := A.Expanded(margin)
 	pa := r1Endpoint(r)
@@ -405,8 +418,11 @@ func r1Pair(c *mon.Case) {
 		if A.Contains(p) != a {
 			c.Violation("r1/Contains-point/wrong-answer", "Contains("+hx(p)+") disagrees with lo<=p<=hi", desc())
 		}
-		if a && !r1In(E, p) {
+		if margin >= 0 && a && !r1In(E, p) {
 			c.Violation("r1/Expanded/loses-point/wrong-answer", "Expanded(margin>=0) lost "+hx(p), desc())
+		}
+		if margin < 0 && !a && r1In(E, p) {
+			c.Violation("r1/Expanded/negative-margin-adds-point/wrong-answer", "Expanded(margin<0) contains "+hx(p)+", which is not in the interval", desc())
 		}
 		if a && !r1In(AP, p) {
 			c.Violation("r1/AddPoint/loses-point/wrong-answer", "AddPoint lost "+hx(p), desc())
@@ -490,8 +506,14 @@ func r2Pair(c *mon.Case) {
 	U, I := A.Union(B), A.Intersection(B)
 	AR := A.AddRect(B)
 	m := r2.Point{X: 0, Y: 0}
-	if r.Intn(2) == 0 {
+	switch r.Intn(5) {
+	case 0, 1:
 		m = r2.Point{X: gen.LogUniform(r, 1e-17, 2), Y: gen.LogUniform(r, 1e-17, 2)}
+	case 2: // both margins negative: the rectangle shrinks (possibly to nothing)
+		m = r2.Point{X: -A.X.Length() * 1.2 * r.Float64(), Y: -A.Y.Length() * 1.2 * r.Float64()}
+		if r.Intn(2) == 0 {
+			m = r2.Point{X: -gen.LogUniform(r, 1e-17, 2), Y: -gen.LogUniform(r, 1e-17, 2)}
+		}
 	}
 	E := A.Expanded(m)
 	pt := r2.Point{X: r1Endpoint(r), Y: r1Endpoint(r)}
@@ -526,8 +548,11 @@ func r2Pair(c *mon.Case) {
 		if A.ContainsPoint(p) != a {
 			c.Violation("r2/ContainsPoint/wrong-answer", "ContainsPoint"+show(p)+" disagrees with the definition", desc())
 		}
-		if a && !r2In(E, p) {
+		if m.X >= 0 && m.Y >= 0 && a && !r2In(E, p) {
 			c.Violation("r2/Expanded/loses-point/wrong-answer", "Expanded(margin>=0) lost "+show(p), desc())
+		}
+		if m.X < 0 && m.Y < 0 && !a && r2In(E, p) {
+			c.Violation("r2/Expanded/negative-margin-adds-point/wrong-answer", "Expanded(margin<0) contains "+show(p)+", which is not in the rectangle", desc())
 		}
 		if (a || r2In(B, p)) && !r2In(AR, p) {
 			c.Violation("r2/AddRect/loses-point/wrong-answer", "AddRect lost "+show(p), desc())
